@@ -134,26 +134,43 @@ def className (n : ℕ) : String :=
   match n with
   | 1 => "Curve" | 2 => "Surface" | 3 => "Volume" | _ => "SplineObject"
 
-/-- The control-net slicing of `section`: fix the selected indices (last direction first so that
-    the remaining axis numbers stay valid). -/
-def sliceSec (t : Tensor K) (sec : List (Option ℕ)) : Tensor K :=
-  (List.zip (List.range sec.length) sec).foldr (fun (d, s) t =>
-    match s with
-    | none => t
-    | some j => t.takeAxis d j) t
+/-- The control-net slicing of `section`: fix the selected indices, last direction first so that
+    the remaining axis numbers stay valid (`d` = axis number of the head selector). -/
+def sliceSecFrom (d : ℕ) : List (Option ℕ) → Tensor K → Tensor K
+  | [], t => t
+  | none :: r, t => sliceSecFrom (d + 1) r t
+  | some j :: r, t => (sliceSecFrom (d + 1) r t).takeAxis d j
+
+def sliceSec (t : Tensor K) (sec : List (Option ℕ)) : Tensor K := sliceSecFrom 0 sec t
+
+/-- numpy's resolution of the integer selectors against the axis lengths (`zip(shape, section)`,
+    left to right, `IndexError` at the first index out of range). -/
+def resolveSel : List ℕ → Sec → PyM (List (Option ℕ))
+  | _, [] => .ok []
+  | [], _ :: _ => .ok []
+  | _ :: ns, none :: r => (resolveSel ns r).map (none :: ·)
+  | n :: ns, some i :: r =>
+    match pyIndex n i with
+    | .error e => .error e
+    | .ok j => (resolveSel ns r).map (some j :: ·)
+
+/-- The bases of the free directions. -/
+def freeBases : List (Basis K) → Sec → List (Basis K)
+  | b :: bs, none :: r => b :: freeBases bs r
+  | _ :: bs, some _ :: r => freeBases bs r
+  | _, _ => []
 
 /-- `SplineObject.section(*args, unwrap_points=…)` after `check_section` (selectors for exactly
     `pardim` directions). -/
-def sectionSel (o : Obj K) (sec : Sec) (unwrap : Bool) : PyM (SecResult K) := do
-  let idx ← (List.zip o.cps.shape sec).mapM (fun (n, s) =>
-    match s with
-    | none => pure none
-    | some i => do let j ← pyIndex n i; pure (some j))
-  let cps := sliceSec o.cps idx
-  let bases := (List.zip o.bases.toList sec).filterMap (fun (b, s) => if s.isNone then some b else none)
-  if !bases.isEmpty ∨ !unwrap then
-    pure (.obj (className bases.length) { bases := bases.toArray, cps := cps, rational := o.rational })
-  else pure (.point cps.data)
+def sectionSel (o : Obj K) (sec : Sec) (unwrap : Bool) : PyM (SecResult K) :=
+  match resolveSel o.cps.shape sec with
+  | .error e => .error e
+  | .ok idx =>
+    let cps := sliceSec o.cps idx
+    let bases := freeBases o.bases.toList sec
+    if !bases.isEmpty ∨ !unwrap then
+      .ok (.obj (className bases.length) { bases := bases.toArray, cps := cps, rational := o.rational })
+    else .ok (.point cps.data)
 
 /-- `obj.section(*args, **kwargs)`. -/
 def «section» (o : Obj K) (args : Sec) (kw : List (ℕ × Sel)) (unwrap : Bool) : PyM (SecResult K) := do
@@ -179,21 +196,29 @@ def faces (o : Obj K) : PyM (List (Option (SecResult K))) := do
   pure ((List.zip (List.range fs.length) fs).map (fun (k, f) =>
     if (o.basis (k / 2)).periodic > -1 then none else some f))
 
+/-- Number of insertions of `const_par_curve`: `min(b.continuity(knot), b.order-1)` as a loop count
+    (`range` of a negative number is empty; `cont = none` is `np.inf`). -/
+def cpcCount (b : Basis K) (cont : Option Int) : ℕ :=
+  let p1 : Int := (b.order : Int) - 1
+  (match cont with
+    | none => p1
+    | some c => min c p1).toNat
+
+/-- The tail of `const_par_curve`: row `i = max(bisect_left(b.knots, knot) - 1, 0)` of the refined
+    net (`C[i,:] · cps`; `IndexError` when `C` has no such row), wrapped as a `Curve` on the other
+    basis. -/
+def cpcPick (o o' : Obj K) (dir : ℕ) (knot : K) : PyM (Obj K) :=
+  let i := (o'.basis dir).bisectL knot - 1
+  if o'.cps.shape.getD dir 0 ≤ i then .error .index else
+  .ok { bases := #[o.basis (1 - dir)], cps := o'.cps.takeAxis dir i, rational := o.rational }
+
 /-- `Surface.const_par_curve(knot, direction)`. -/
 def constParCurve (o : Obj K) (tol knot : K) (direction : Int ⊕ String) : PyM (Obj K) := do
   let dir ← checkDirection direction 2
-  let b := o.basis dir
-  let cont ← b.continuity tol knot
-  let p1 : Int := (b.order : Int) - 1
-  let mult : Int := match cont with
-    | none => p1
-    | some c => min c p1
+  let cont ← (o.basis dir).continuity tol knot
   -- `for i in range(mult): C = b.insert_knot(knot) @ C`
-  let o' ← o.insertKnots (List.replicate mult.toNat knot) dir
-  let b' := o'.basis dir
-  let i := b'.bisectL knot - 1          -- `max(bisect_left(b.knots, knot) - 1, 0)`
-  if o'.cps.shape.getD dir 0 ≤ i then .error .index else
-  pure { bases := #[o.basis (1 - dir)], cps := o'.cps.takeAxis dir i, rational := o.rational }
+  let o' ← o.insertKnots (List.replicate (cpcCount (o.basis dir) cont) knot) dir
+  cpcPick o o' dir knot
 
 /-! ## Factories -/
 
@@ -365,6 +390,31 @@ def extrude (o : Obj K) (amount : List K) : PyM (Obj K) :=
     let top := o3.translate amount
     .ok { bases := o3.bases.push linearBasis, cps := stack2 o3.cps top.cps, rational := o3.rational }
 
+/-- One entry of the six-face volume net, exactly as `edge_surfaces` assembles it
+    (`vol1 + vol2 + vol3 + vol4 − vol_u_edges − vol_v_edges − vol_w_edges`) for blending abscissae
+    `ξ, η, ζ` and the six face nets (one component): `f a` faces `u = a` indexed `(j,k)`, `g b` faces
+    `v = b` indexed `(i,k)`, `h c` faces `w = c` indexed `(i,j)`. -/
+def triNetModel (ξ η ζ : ℕ → K) (nu nv nw : ℕ) (f0 f1 g0 g1 h0 h1 : ℕ → ℕ → K) (i j k : ℕ) : K :=
+  -- weight of end `a ∈ {0,1}` at abscissa `g`
+  let w (a : ℕ) (g : K) : K := if a = 0 then 1 - g else g
+  let last (a n : ℕ) : ℕ := if a = 0 then 0 else n - 1
+  -- the three ruled volumes in (u,v,w) index order
+  let Fu (i j k : ℕ) : K := f0 j k * (1 - ξ i) + f1 j k * ξ i
+  let Fv (i j k : ℕ) : K := g0 i k * (1 - η j) + g1 i k * η j
+  let Fw (i j k : ℕ) : K := h0 i j * (1 - ζ k) + h1 i j * ζ k
+  let ab : List (ℕ × ℕ) := [(0,0), (0,1), (1,0), (1,1)]
+  let abc : List (ℕ × ℕ × ℕ) := [(0,0,0), (0,0,1), (0,1,0), (0,1,1), (1,0,0), (1,0,1), (1,1,0), (1,1,1)]
+  -- corner (u=a, v=b, w=c) from `vol1.corners()` (before its swaps): the faces `umin`, `umax`
+  let corner (a b c : ℕ) : K := (if a = 0 then f0 else f1) (last b nv) (last c nw)
+  let vol4 := abc.foldl (fun acc (a, b, d) => acc + w a (ξ i) * w b (η j) * w d (ζ k) * corner a b d) 0
+  -- vol_u_edges: w-direction edges of vol1, bilinear in (u,v)
+  let eW := ab.foldl (fun acc (a, b) => acc + w a (ξ i) * w b (η j) * Fu (last a nu) (last b nv) k) 0
+  -- vol_v_edges: u-direction edges of vol2, bilinear in (v,w)
+  let eU := ab.foldl (fun acc (b, d) => acc + w b (η j) * w d (ζ k) * Fv i (last b nv) (last d nw)) 0
+  -- vol_w_edges: v-direction edges of vol3, bilinear in (u,w)
+  let eV := ab.foldl (fun acc (a, d) => acc + w a (ξ i) * w d (ζ k) * Fw (last a nu) j (last d nw)) 0
+  Fu i j k + Fv i j k + Fw i j k + vol4 - eW - eU - eV
+
 /-- `edge_surfaces(*surfaces)`. -/
 def edgeSurfaces (surfs : List (Obj K)) : PyM (Option (Obj K)) :=
   match surfs with
@@ -386,33 +436,13 @@ def edgeSurfaces (surfs : List (Obj K)) : PyM (Option (Obj K)) :=
     let nv := eta.size
     let nw := zeta.size
     let nc := umin.ncomp
-    -- weight of end `a ∈ {0,1}` at Greville value `g`
-    let w (a : ℕ) (g : K) : K := if a = 0 then 1 - g else g
-    let last (a n : ℕ) : ℕ := if a = 0 then 0 else n - 1
-    let X (i : ℕ) := xi.getD i 0
-    let Y (j : ℕ) := eta.getD j 0
-    let Z (k : ℕ) := zeta.getD k 0
-    -- the three ruled volumes in (u,v,w) index order
-    let Fu (i j k c : ℕ) : K := v1.cps.getIdx [j, k, 0, c] * (1 - X i) + v1.cps.getIdx [j, k, 1, c] * X i
-    let Fv (i j k c : ℕ) : K := v2.cps.getIdx [i, k, 0, c] * (1 - Y j) + v2.cps.getIdx [i, k, 1, c] * Y j
-    let Fw (i j k c : ℕ) : K := v3.cps.getIdx [i, j, 0, c] * (1 - Z k) + v3.cps.getIdx [i, j, 1, c] * Z k
-    let ab : List (ℕ × ℕ) := [(0,0), (0,1), (1,0), (1,1)]
-    let abc : List (ℕ × ℕ × ℕ) := [(0,0,0), (0,0,1), (0,1,0), (0,1,1), (1,0,0), (1,0,1), (1,1,0), (1,1,1)]
-    -- corner (u=a, v=b, w=c) from `vol1.corners()` (before its swaps): the faces `umin`, `umax`
-    let corner (a b c comp : ℕ) : K := v1.cps.getIdx [last b nv, last c nw, a, comp]
     let cps : Tensor K := Tensor.tabulate [nu, nv, nw, nc] (fun idx =>
-      let i := idx.getD 0 0
-      let j := idx.getD 1 0
-      let k := idx.getD 2 0
       let c := idx.getD 3 0
-      let vol4 := abc.foldl (fun acc (a, b, d) => acc + w a (X i) * w b (Y j) * w d (Z k) * corner a b d c) 0
-      -- vol_u_edges: w-direction edges of vol1, bilinear in (u,v)
-      let eW := ab.foldl (fun acc (a, b) => acc + w a (X i) * w b (Y j) * Fu (last a nu) (last b nv) k c) 0
-      -- vol_v_edges: u-direction edges of vol2, bilinear in (v,w)
-      let eU := ab.foldl (fun acc (b, d) => acc + w b (Y j) * w d (Z k) * Fv i (last b nv) (last d nw) c) 0
-      -- vol_w_edges: v-direction edges of vol3, bilinear in (u,w)
-      let eV := ab.foldl (fun acc (a, d) => acc + w a (X i) * w d (Z k) * Fw (last a nu) j (last d nw) c) 0
-      Fu i j k c + Fv i j k c + Fw i j k c + vol4 - eW - eU - eV)
+      triNetModel (fun i => xi.getD i 0) (fun j => eta.getD j 0) (fun k => zeta.getD k 0) nu nv nw
+        (fun j k => v1.cps.getIdx [j, k, 0, c]) (fun j k => v1.cps.getIdx [j, k, 1, c])
+        (fun i k => v2.cps.getIdx [i, k, 0, c]) (fun i k => v2.cps.getIdx [i, k, 1, c])
+        (fun i j => v3.cps.getIdx [i, j, 0, c]) (fun i j => v3.cps.getIdx [i, j, 1, c])
+        (idx.getD 0 0) (idx.getD 1 0) (idx.getD 2 0))
     pure (some { bases := #[bu, bv, bw], cps := cps, rational := false })
   | _ => .error .value
 
